@@ -537,7 +537,7 @@ def make_trim(t):
 class Trim(Family):
     name = "trim"
     imports = ("Model.Basis", "Model.Knots", "Model.Eval", "Model.Geom2D", "Model.Tess", "Run.TessH")
-    count = {"quick": 24, "thorough": 160}
+    count = {"quick": 30, "thorough": 160}
     has_oracle = True
     timeout = 120
 
@@ -550,13 +550,16 @@ class Trim(Family):
                 su += 2 * k
             if (sv - 1) // k < 2 and sv + 2 * k <= maxsize:
                 sv += 2 * k
-            shape = rng.choice(["rect", "rect", "triangle", "convex", "lshape", "over", "aligned", "spline", "two"])
+            shape = rng.choice(["rect", "rect", "triangle", "convex", "lshape", "over", "aligned", "spline", "two", "ushape"])
             rev = None
             r = rng.random()
             if r < 0.15:
                 rev = 1
             elif r < 0.3:
                 rev = 0
+            if i % 6 == 4:          # grid-aligned trims, alternately with reversed sense: the +-tol**2 corner offsets decide
+                shape = "aligned"
+                rev = 1 if i % 12 == 4 else rev
             trims = []
             if shape == "aligned":
                 # rectangle with edges on lines of a dyadic sampling grid (exact ties resolved by the +-tol**2 offsets)
@@ -573,6 +576,16 @@ class Trim(Family):
                 cp.append(list(cp[0]))
                 trims.append({"kind": "spline", "degree": 2, "ctrlpts": cp, "U": knotvector.generate(2, len(cp)),
                               "sample": rng.randint(9, 14), "reversed": rev})
+            elif shape == "ushape":
+                # U-shaped trim whose slot is narrower than a cell: some cell edges cross the trim boundary three times
+                # (the intersection with the smallest parameter has to be chosen)
+                a_ = (su - 1) // k
+                h = 1.0 / a_
+                i0 = rng.randint(0, max(0, a_ - 2))
+                L, s1, s2, R = [i0 * h + f * h + jitter(rng) for f in (0.2, 0.45, 0.6, 1.3)]
+                y0, ys, y1 = 0.12 + jitter(rng), 0.3 + jitter(rng), 0.9 + jitter(rng)
+                p = [[L, y0], [R, y0], [R, y1], [s2, y1], [s2, ys], [s1, ys], [s1, y1], [L, y1]]
+                trims.append({"kind": rng.choice(["freeform", "poly1"]), "pts": p + [p[0]], "reversed": rev})
             elif shape == "two":
                 p1 = [[gcoord(rng, 10, 50), gcoord(rng, 10, 100)], None, None, None]
                 x0, y0 = p1[0]
@@ -761,8 +774,10 @@ class Container(Family):
                 verts, faces = mc.vertices, mc.faces
             o = dump_mesh(verts, faces)
             o["sizes"] = [[e.sample_size_u, e.sample_size_v] for e in mc]
-            o["nverts"] = [len(e.vertices) for e in mc]
-            o["nfaces"] = [len(e.faces) for e in mc]
+            o["nverts"] = [len(e.tessellator.vertices) for e in mc]
+            o["nfaces"] = [len(e.tessellator.faces) for e in mc]
+            o["elem_ids"] = [[v.id for v in e.tessellator.vertices] for e in mc]
+            o["elem_faces"] = [[list(f.data) for f in e.tessellator.faces] for e in mc]
             return o
         return call(f)
 
@@ -791,6 +806,10 @@ class Container(Family):
             return "container-faceids: face ids of the container are not consecutive"
         if sum(o["nverts"]) != V or sum(o["nfaces"]) != len(o["faces"]):
             return "container-count: %d vertices / %d faces, the surfaces have %s / %s" % (V, len(o["faces"]), o["nverts"], o["nfaces"])
+        for i, (ids, fs) in enumerate(zip(o["elem_ids"], o["elem_faces"])):
+            # the tessellation of each surface itself must still be numbered 0..n-1 after the container has used it
+            if ids != list(range(len(ids))) or any(x < 0 or x >= len(ids) for f in fs for x in f):
+                return "container-element: after the container tessellation surface %d has vertex ids %s... and faces %s..." % (i, ids[:6], fs[:2])
         voff = foff = 0
         for i, (nv, nf) in enumerate(zip(o["nverts"], o["nfaces"])):
             faces = [tuple(x - voff for x in f[1:]) for f in o["faces"][foff:foff + nf]]
